@@ -345,10 +345,11 @@ func (c *ClientConn) maybePrepareAndExecute(request Request, raw *frame.RawFrame
 					zap.String("host", c.conn.RemoteAddr().String()),
 					zap.String("id", id),
 					zap.Error(err))
-				return false
-			} else {
-				return true
+				// The statement can't be prepared on this connection (it's closed or out of streams); the request hasn't
+				// been executed, so try the next host instead of returning the unprepared error to the client.
+				request.Execute(true)
 			}
+			return true
 		} else {
 			c.logger.Warn("received unprepared error response, but existing prepared ID not in the cache",
 				zap.String("id", id))
